@@ -89,6 +89,7 @@ type State struct {
 	facts     map[int]bool
 	splits    map[string][]*Str
 	rec       *Recorder
+	sched     *schedState
 }
 
 // addPC appends t to the path condition and records simple facts.
@@ -199,6 +200,9 @@ func (st *State) Clone() *State {
 	}
 	if st.rec != nil {
 		n.rec = st.rec.clone()
+	}
+	if st.sched != nil {
+		n.sched = st.sched.clone()
 	}
 	n.facts = make(map[int]bool, len(st.facts))
 	for k, v := range st.facts {
